@@ -12,7 +12,7 @@ if args and args[0] == '--seeds':
     only = args[1:]
     for d in sorted(glob.glob(HERE + '/seeded/*/')):
         nm = os.path.basename(d.rstrip('/'))
-        if only and not any(nm.startswith(o) for o in only):
+        if nm.startswith('_') or (only and not any(nm.startswith(o) for o in only)):
             continue
         pid = nm.split('-')[0]
         subprocess.run(['git', '-C', REPO, 'checkout', '--', '.'])
